@@ -21,6 +21,11 @@ impl PathBuf {
     pub fn mash_s(&self, s: &Str) -> (r: PathBuf) ensures r.comps() == spec_mash(self.comps(), parse(s@)) { unimplemented!() }
 }
 
+// R8 (unit-wide): any `env::var("NAME")` is the environment oracle; `env::temp_dir()` honours TMPDIR and is left unspecified
+//@ rwall R8 re⟦(?<![\w:])env::var\(⟧ => ⟦env_var(⟧
+//@ rwall R8 re⟦(?<![\w:])env::temp_dir\(\)⟧ => ⟦env_temp_dir()⟧
+#[verifier::external_body]
+pub fn env_temp_dir() -> (r: PathBuf) { unimplemented!() }
 //@ item home_dir file=src/sys/fs/path.rs fn=home_dir props=C18,C17,C12,C05,C01
 //@ rw R8 * ⟦std::env::var("HOME")?⟧ => ⟦env_var("HOME")?⟧
 //@ rw R1 * ⟦PathBuf::from(home)⟧ => ⟦PathBuf::from_s(&home)⟧
